@@ -6,3 +6,6 @@ import TypedpyModel.Props.C06
 #print axioms Typedpy.C06.extra_keys_policy
 #print axioms Typedpy.C06.extra_keys_need_additional_properties
 #print axioms Typedpy.C06.deserialize_example
+#print axioms Typedpy.C06.deserialize_exact_partial
+#print axioms Typedpy.C06.deserialize_accepts_iff_partial
+#print axioms Typedpy.C06.exact_fragment_example
